@@ -1,3 +1,3 @@
 SPECIFICATION Spec
-INVARIANTS Invertible ParamsSane
+INVARIANTS Invertible ParamsSane LdpcFormsAgree LdpcSolutionOk
 CHECK_DEADLOCK FALSE
